@@ -223,6 +223,9 @@ Lemma upload_ops_err : forall final blocks,
     UnlinkIfLink (final ++ putfile_tmp_ext) :: err_ops (final ++ putfile_tmp_ext) blocks.
 Proof. intros. unfold upload_ops, interps, err_ops. cbn [putfile_main putfile_err flat_map interp pth app]. rewrite !app_nil_r. reflexivity. Qed.
 
+Lemma upload_ops_badblock : forall final blocks, upload_ops final blocks BadBlock = upload_ops final blocks SrcError.
+Proof. reflexivity. Qed.
+
 Lemma registry_ops_core : forall basedir chunks,
   registry_ops basedir chunks =
     firstn (List.length chunks + 3) (core_ops (registry_final basedir ++ registry_tmp_ext) (registry_final basedir) chunks).
@@ -254,6 +257,8 @@ Proof.
   - rewrite upload_ops_done in Ho. unfold core_ops in Ho. apply (G _) in Ho; [exact Ho|].
     intros o' Ho' p' Hp'. cbn in Ho'. destruct Ho' as [<-|[<-|[<-|[]]]]; cbn in Hp'; intuition (subst; auto).
   - rewrite upload_ops_err in Ho. unfold err_ops in Ho. apply (G _) in Ho; [exact Ho|].
+    intros o' Ho' p' Hp'. cbn in Ho'. destruct Ho' as [<-|[<-|[]]]; cbn in Hp'; intuition (subst; auto).
+  - rewrite upload_ops_badblock, upload_ops_err in Ho. unfold err_ops in Ho. apply (G _) in Ho; [exact Ho|].
     intros o' Ho' p' Hp'. cbn in Ho'. destruct Ho' as [<-|[<-|[]]]; cbn in Hp'; intuition (subst; auto).
 Qed.
 
@@ -307,7 +312,7 @@ Qed.
 
 (* an upload that ends in a source error or a disconnect, and any crash during it: the final name and every other
    entry stay as they were; once the error path has run, the temporary is gone *)
-Theorem upload_interrupted : forall s0 final blocks k,
+Lemma upload_interrupted_src : forall s0 final blocks k,
   wf_st s0 -> unshared s0 (final ++ putfile_tmp_ext) -> clean s0 -> no_dir_at s0 (final ++ putfile_tmp_ext) ->
   let s := run s0 (firstn k (upload_ops final blocks SrcError)) in
   (forall q, q <> final ++ putfile_tmp_ext -> look s q = look s0 q) /\ followed s = false /\ failed s = false /\
@@ -322,6 +327,17 @@ Proof.
   - intros q Hq. rewrite (Ha q Hq). apply Hlk. exact Hq.
   - intros Hk. apply Hd. unfold err_ops in Hk. cbn [List.length] in Hk. rewrite app_length, map_length in Hk.
     cbn [List.length] in Hk. lia.
+Qed.
+
+(* every kind of interruption: the source's read() fails, the connection is lost, or the source delivers a block that
+   cannot be written *)
+Theorem upload_interrupted : forall oc s0 final blocks k, oc <> Done ->
+  wf_st s0 -> unshared s0 (final ++ putfile_tmp_ext) -> clean s0 -> no_dir_at s0 (final ++ putfile_tmp_ext) ->
+  let s := run s0 (firstn k (upload_ops final blocks oc)) in
+  (forall q, q <> final ++ putfile_tmp_ext -> look s q = look s0 q) /\ followed s = false /\ failed s = false /\
+  ((List.length (upload_ops final blocks oc) <= k)%nat -> names s (final ++ putfile_tmp_ext) = None).
+Proof.
+  intros oc s0 final blocks k Hoc. destruct oc; [contradiction| |rewrite upload_ops_badblock]; apply upload_interrupted_src.
 Qed.
 
 (* ---------- registry ---------- *)
@@ -353,6 +369,7 @@ Theorem gatherer_contained : forall cwd base name q, wf_base base -> gatherer_pa
 Proof.
   intros cwd base name q Hb H. unfold gatherer_path in H.
   assert (Eg : gatherer_guard = GuardParentEq) by reflexivity. rewrite Eg in H.
+  assert (Es : gatherer_path_source = FromValidated) by reflexivity. rewrite Es in H.
   destruct (guarded GuardParentEq cwd base name) as [p|] eqn:Hg; [|discriminate]. injection H as <-.
   destruct gatherer_ext_facts. apply inside_ext; [eapply guarded_inside; eauto|assumption|assumption].
 Qed.
